@@ -1554,7 +1554,9 @@ def run(ck: core.Check):
                            "adapt_state": info.get("adapt_state"), "adapt_attr_writes": info.get("adapt_attr_writes")}
     ck.lean(["SpoxModel.Props.C09"], audit="SpoxModel.Audit.C09")
     if ck.thorough:
-        ck.leanchecker(["SpoxModel.Props.C09"])
+        ck.leanchecker(["SpoxModel.Props.C09", "SpoxModel.Lemmas.Opset", "SpoxModel.Lemmas.OpsetRename",
+                        "SpoxModel.Lemmas.OpsetFuncs", "SpoxModel.Lemmas.OpsetNames", "SpoxModel.Lemmas.OpsetMerge",
+                        "SpoxModel.Model.Opset"])
 
     mismatches: list[tuple[str, str]] = []
     try:
